@@ -181,7 +181,7 @@ func sizeof(v reflect.Value) int {
 	case reflect.Uint8, reflect.Uint16, reflect.Uint32, reflect.Uint64,
 		reflect.Int8, reflect.Int16, reflect.Int32, reflect.Int64,
 		reflect.Float32, reflect.Float64, reflect.Complex64, reflect.Complex128,
-		reflect.Int:
+		reflect.Int, reflect.Uint, reflect.Uintptr:
 		sum = int(v.Type().Size())
 	case reflect.Bool:
 		sum = int(v.Type().Size())
